@@ -23,7 +23,7 @@ def subsets(xs):
 def worker(kp, job):
     seed, idx = job
     rng = random.Random(seed * 67867967 + idx)
-    g = docs.gen_doc(rng, max_spines=4, free_headers=(idx % 4 == 0))
+    g = docs.gen_doc(rng, max_spines=4, free_headers=(idx % 4 == 0), early_end=(0.25 if idx % 4 == 1 else 0.0))
     text = g.text
     bad = docs.bad_cells(kp, text)
     try:
